@@ -17,6 +17,8 @@ if [ "$patch" != "-" ]; then git -C $wt apply $patch || { echo "patch does not a
 (cd $wt && go build ./pkg/... ) || { echo "mutant does not compile"; exit 2; }
 sed "s#=> /repo#=> $wt#" /verif/harness/go.mod > /tmp/mut.$$.mod; cp /verif/harness/go.sum /tmp/mut.$$.sum
 tags=verif; race=""; [ "$id" = C17 ] && race="-race"
+# MUT_RACE=1: the supplementary race-detector phase of check.sh (C14, C12) against the mutant
+if [ -n "${MUT_RACE:-}" ]; then race="-race"; export GORACE="halt_on_error=0 exitcode=0 log_path=/tmp/mutrace.$$"; export VERIF_RACE_LOG=/tmp/mutrace.$$; MUT_ARGS="${MUT_ARGS:-} --race-phase --max ${MUT_RACE_CASES:-64}"; fi
 (cd /verif/harness && go build $race -tags $tags -modfile=/tmp/mut.$$.mod -o /verif/bin/verif-mut.$$ ./cmd/verif) || exit 2
 mkdir -p /tmp/mutverif.$$; cp /verif/known_findings.json /tmp/mutverif.$$/
 /verif/bin/verif-mut.$$ check $id --tier $tier --seed $seed --verif /tmp/mutverif.$$ ${MUT_ARGS:-} > /tmp/mutout.$$ 2>&1
